@@ -102,6 +102,33 @@ def events(seed):
         yield {"op": "is_push_pop", "pda": ab.pda(P), "res": bool(v), "src": src}
 
 
+    # fresh names
+    rng = random.Random(seed + 5)
+    hint = rng.choice(["q", "P", "trap", "M", "q_accept"])
+    n_used = rng.choice([0, 1, 3, 9, 10, 11, 12])
+    used = {"%s%d" % (hint, i) for i in range(1, n_used + 1)} | set(rng.sample(["a", "q", "P", hint, hint + "0", hint + "01"], 2))
+    if rng.random() < 0.4 and n_used > 2:
+        used.discard("%s%d" % (hint, rng.randint(1, n_used)))          # a gap
+    r, exc = guarded(lambda: da.fresh_state(set(used), hint))
+    if exc == "none":
+        yield {"op": "fresh", "fn": "fresh_state", "used": sorted(used), "hint": hint, "plain_first": False, "res": r, "src": src}
+    from gambatools.automaton_algorithms import AutomatonBuilder, default_state_label_regex
+    try:
+        B = AutomatonBuilder(default_state_label_regex(), None, None)
+        r, exc = guarded(lambda: B._fresh_state(set(used), hint))
+        if exc == "none":
+            yield {"op": "fresh", "fn": "_fresh_state", "used": sorted(used), "hint": hint, "plain_first": True, "res": r, "src": src}
+    except TypeError:
+        pass
+    from gambatools.identifier_generator import IdentifierGenerator
+    start = rng.choice([0, 1, 8, 9, 10, 99])
+    g = IdentifierGenerator(start)
+    hints = [rng.choice(["q", "s", "x1"]) for _ in range(rng.randint(1, 4))]
+    res, exc = guarded(lambda: [g.generate(h) for h in hints])
+    if exc == "none":
+        yield {"op": "idgen", "start": start, "hints": hints, "res": res, "index_after": g.index, "src": src}
+
+
 def drive(task):
     for i in range(task["count"]):
         yield from events(task["seed"] * 100000 + i)
@@ -112,7 +139,8 @@ def redrive(src):
 
 
 RULE = ("seeded mix: grammar clean-up functions, right-linear grammar -> NFA, the random object generators, "
-        "automata_checker, dfa_reachable_states, pda_is_push_pop; non-trivial = result differs from input / answer not "
+        "automata_checker, dfa_reachable_states, pda_is_push_pop, the fresh-name functions (fresh_state, "
+        "AutomatonBuilder._fresh_state, IdentifierGenerator) with 0-12 used names; non-trivial = result differs from input / answer not "
         "trivially true; distinct = distinct event")
 
 
